@@ -257,8 +257,13 @@ def _mkn(zt, at, fn="popn", sel=None):
     d = tree_depth(at)
     if sel is not None:
         zp = names("z", tree_params(zt)); ap = names("a", tree_params(at))
-        return Ob("%s/%s<<%s/sel%s" % (fn, str(zt).replace(" ", ""), str(at).replace(" ", ""), "".join(map(str, sel))), fn,
-                  dict(a=at, depth=d, z=zt, sel=list(sel)), zp + ap + names("w", _leaves(at)), tree_pre(zt, zp)[0] + tree_pre(at, ap)[0])
+        ob = Ob("%s/%s<<%s/sel%s" % (fn, str(zt).replace(" ", ""), str(at).replace(" ", ""), "".join(map(str, sel))), fn,
+                dict(a=at, depth=d, z=zt, sel=list(sel)), zp + ap + names("w", _leaves(at)), tree_pre(zt, zp)[0] + tree_pre(at, ap)[0])
+        if zt != []:
+            # quick-tier counterpart of a slow obligation: the destination's own coordinates pinned to 0, 2, 4, ... per fiber, the source
+            # (and therefore disjoint / overlapping / in-between placement), all values and the body stay symbolic
+            ob.pin = {k: 2 * v for k, v in tree_pin(zt, zp)[0].items()}
+        return ob
     zp = names("z", tree_params(zt)) if fn == "popn" else []
     ap = names("a", tree_params(at))
     nl = _leaves(at)
